@@ -5,6 +5,7 @@ CONSTANTS
   NS = {2, 3, 4}
   Lims = {0, 1, 2}
   NodeCounts = {2}
+  LockKeys = {"owner"}
   FixedKinds = {"conncap", "maplimit", "maplive", "codequota", "mapquota"}
   WithRelease = TRUE
   Emit = FALSE
